@@ -82,12 +82,32 @@ func (t *tree) doRemove(
 		if key.BitLength() < bitLength {
 			// Lookup key is too short for the current n.Label, so it doesn't exist.
 			return ptr, false, nil, nil
-		} else if key.BitLength() == bitLength {
-			n.LeafNode, changed, existing, err = t.doRemove(ctx, n.LeafNode, bitLength, key)
+		}
+
+		// Make sure both children can be fetched before descending, so that a failed fetch
+		// cannot leave the key removed below a node that was neither collapsed nor marked dirty.
+		if _, err = t.cache.derefNodePtr(ctx, n.Left, t.newFetcherSyncGet(key, true)); err != nil {
+			return nil, false, nil, err
+		}
+		if _, err = t.cache.derefNodePtr(ctx, n.Right, t.newFetcherSyncGet(key, true)); err != nil {
+			return nil, false, nil, err
+		}
+
+		// NOTE: The child pointer must only be replaced after the removal below it succeeded as
+		//       otherwise a failed removal would cut off the whole subtree.
+		var child *node.Pointer
+		if key.BitLength() == bitLength {
+			if child, changed, existing, err = t.doRemove(ctx, n.LeafNode, bitLength, key); err == nil {
+				n.LeafNode = child
+			}
 		} else if key.GetBit(bitLength) {
-			n.Right, changed, existing, err = t.doRemove(ctx, n.Right, bitLength, key)
+			if child, changed, existing, err = t.doRemove(ctx, n.Right, bitLength, key); err == nil {
+				n.Right = child
+			}
 		} else {
-			n.Left, changed, existing, err = t.doRemove(ctx, n.Left, bitLength, key)
+			if child, changed, existing, err = t.doRemove(ctx, n.Left, bitLength, key); err == nil {
+				n.Left = child
+			}
 		}
 		if err != nil {
 			return nil, false, existing, err
